@@ -1,5 +1,14 @@
-(* Props.v (C17) — statements only; proofs live in C17/Lemmas.v *)
-From Coq Require Import List Arith Bool.
+(* Props.v (C17) — statements only; proofs live in C17/Lemmas.v.
+
+   The predicates `arborescence` and `parent_before_child` are defined in
+   C17/Lemmas.v and restated here (`arborescence_def` and
+   `parent_before_child_def` below hold by `reflexivity`, so the text
+   shown in this file is, up to conversion, the definition the theorems are
+   about).
+
+   All theorems are unbounded: no bound on the number of nodes, on the node
+   labels, or on the length of the edge list. *)
+From Coq Require Import List Arith Bool Permutation.
 Import ListNotations.
 From SV Require Import C17.Toposort C17.Lemmas.
 
@@ -8,3 +17,91 @@ Example ex_toposort_smoke :
   toposort [(2,0);(3,2);(3,1);(2,4);(1,5)] = Some [1;2;0;3;4].
 Proof. exact toposort_smoke. Qed.
 Print Assumptions ex_toposort_smoke.
+
+(* --- the predicates, restated ------------------------------------------ *)
+
+(* a tree-shaped skeleton written as an edge list (src, dst) with root r:
+   every node has at most one incoming edge, r has none, edges go strictly
+   down in depth (acyclic), every source is the root or has a parent edge
+   (connected).  Node labels and the order of the edges are arbitrary. *)
+Lemma arborescence_def : forall es r,
+  arborescence es r =
+  (es <> [] /\ NoDup (map snd es) /\ ~ In r (map snd es) /\
+   exists depth : nat -> nat, forall u v, In (u,v) es ->
+     depth v = S (depth u) /\ (u = r \/ In u (map snd es))).
+Proof. exact arborescence_unfold. Qed.
+Print Assumptions arborescence_def.
+
+(* `out` lists edge indices; an edge whose source is not the root appears
+   strictly after the edge leading into its source *)
+Lemma parent_before_child_def : forall es out r,
+  parent_before_child es out r =
+  (forall k i u v, nth_error out k = Some i -> nth_error es i = Some (u,v) -> u <> r ->
+   exists k' j p, k' < k /\ nth_error out k' = Some j /\ nth_error es j = Some (p,u)).
+Proof. exact parent_before_child_unfold. Qed.
+Print Assumptions parent_before_child_def.
+
+(* the hypothesis is satisfiable: the docstring skeleton, root 3 *)
+Example ex_arborescence_nonvacuous :
+  arborescence [(2,0);(3,2);(3,1);(2,4);(1,5)] 3.
+Proof. exact arborescence_nonvacuous. Qed.
+Print Assumptions ex_arborescence_nonvacuous.
+
+(* --- C17, main theorem -------------------------------------------------- *)
+
+(* For every tree-shaped skeleton, however its nodes are numbered and its
+   edges are listed, the model of toposort_edges returns (never runs out of
+   fuel, never fails to find the root or an index), the returned order
+   contains every edge index exactly once, and lists an edge only after the
+   edge leading into its source node. *)
+Theorem toposort_tree_complete_ordered : forall es r, arborescence es r ->
+  exists out, toposort es = Some out /\
+              Permutation out (seq 0 (length es)) /\
+              parent_before_child es out r.
+Proof. exact toposort_tree_complete_ordered_proof. Qed.
+Print Assumptions toposort_tree_complete_ordered.
+
+(* the root the model picks (first in-degree-0 node in insertion order) is
+   the root of the arborescence *)
+Theorem arborescence_root_is_model_root : forall es r,
+  arborescence es r -> root es = Some r.
+Proof. exact arborescence_root. Qed.
+Print Assumptions arborescence_root_is_model_root.
+
+(* --- the executable statement order_ok (Toposort.v) --------------------- *)
+
+(* the boolean checker used on the specification side of the correspondence
+   means exactly the Prop-level statement (both directions) *)
+Theorem order_ok_sound : forall es out, order_ok es out = true ->
+  exists r, root es = Some r /\ Permutation out (seq 0 (length es)) /\
+            parent_before_child es out r.
+Proof. exact order_ok_sound_proof. Qed.
+Print Assumptions order_ok_sound.
+
+Theorem order_ok_spec : forall es out,
+  order_ok es out = true <->
+  exists r, root es = Some r /\ Permutation out (seq 0 (length es)) /\
+            parent_before_child es out r.
+Proof. exact order_ok_iff. Qed.
+Print Assumptions order_ok_spec.
+
+Corollary toposort_tree_order_ok : forall es r, arborescence es r ->
+  exists out, toposort es = Some out /\ order_ok es out = true.
+Proof. exact toposort_tree_order_ok_proof. Qed.
+Print Assumptions toposort_tree_order_ok.
+
+(* the boolean tree recogniser of Toposort.v implies the hypothesis *)
+Theorem is_tree_sound : forall es, is_tree es = true -> exists r, arborescence es r.
+Proof. exact is_tree_sound_proof. Qed.
+Print Assumptions is_tree_sound.
+
+(* --- corollary used by C08 ---------------------------------------------- *)
+
+(* when edge (u,v) is processed in the returned order, no earlier edge of the
+   order has v as its source or as its destination *)
+Corollary toposort_dst_fresh : forall es r out, arborescence es r -> toposort es = Some out ->
+  forall k i u v, nth_error out k = Some i -> nth_error es i = Some (u,v) ->
+  forall k' j a b, k' < k -> nth_error out k' = Some j -> nth_error es j = Some (a,b) ->
+  a <> v /\ b <> v.
+Proof. exact toposort_dst_fresh_proof. Qed.
+Print Assumptions toposort_dst_fresh.
